@@ -49,7 +49,7 @@ def close(a, b, rtol=1e-12):
     if a.shape != b.shape:
         return False
     scale = float(np.max(np.abs(b))) if b.size else 0.0
-    return bool(np.allclose(a, b, rtol=rtol, atol=1e-12 * scale, equal_nan=True))
+    return bool(np.allclose(a, b, rtol=rtol, atol=rtol * scale, equal_nan=True))
 
 
 def gen_vector(rng, n, kind, basis_index=0):
@@ -69,6 +69,16 @@ def gen_vector(rng, n, kind, basis_index=0):
         for _ in range(rng.randrange(1, 3)):
             v[rng.choice([0, n - 1, rng.randrange(0, n)])] = rng.choice([float("inf"), 0.0, float("inf")])
         return v
+    if kind == "signed":
+        # cross-spectra and differences of PSDs have negative entries; the conversions are linear
+        return np.array([rng.uniform(-100.0, 100.0) for _ in range(n)])
+    if kind == "narrow":
+        # narrow dtypes: folding two values must not wrap around or lose precision in the input dtype
+        dt = rng.choice(["int8", "uint8", "int16", "float32"])
+        if dt == "float32":
+            return np.array([rng.uniform(1.0, 3.0e7) for _ in range(n)], dtype=np.float32)
+        hi = {"int8": 127, "uint8": 255, "int16": 32767}[dt]
+        return np.array([rng.randrange(hi // 2, hi + 1) for _ in range(n)], dtype=np.dtype(dt))
     if kind == "cvalued":
         return np.array([complex(rng.uniform(0.5, 100.0), rng.uniform(-1.0, 1.0)) for _ in range(n)])
     if kind == "ints":
@@ -93,6 +103,7 @@ class Run(object):
         self.paths = []          # successful conversion targets, in order
         self.pending = False     # an invalidating assignment was accepted since the PSD was stored
         self.dead = False        # the object's configuration became uncomputable: only psd= revives it
+        self.held = []           # (step, description, array handed out, copy of its values at that time)
         self.cplx = bool(cfg["cplx"])
         sp = sut.load()
         try:
@@ -144,6 +155,8 @@ class Run(object):
                              % (len(self.stored), self.store_sides, self.M))
         self.T = refmodel.canonical_from(self.stored, self.store_sides, self.M)
         self.sides = self.store_sides
+        # a PSD handed in as float32 may legitimately be processed in float32
+        self.rtol = 1e-6 if np.asarray(stored).dtype == np.float32 else 1e-12
 
     def abstate(self):
         return (self.cls, self.cplx, self.M % 2, self.sides)
@@ -191,9 +204,9 @@ class Run(object):
         if permutation_only:
             okv = exact_equal(got, expect)
         else:
-            okv = close(got, expect)
+            okv = close(got, expect, rtol=self.rtol)
         if not okv:
-            bad = [j for j in range(len(got)) if not close(got[j:j + 1], expect[j:j + 1])][:4]
+            bad = [j for j in range(len(got)) if not close(got[j:j + 1], expect[j:j + 1], rtol=self.rtol)][:4]
             return Violation("align", idx, "%s: entries %s (frequencies %s) hold %s, the source values at those "
                              "frequencies are %s (NFFT=%d, stored as %s)"
                              % (what, bad, [freqs[j] for j in bad], [complex(got[j]) if np.iscomplexobj(got) else float(got[j]) for j in bad],
@@ -201,7 +214,7 @@ class Run(object):
         # power
         s0 = complex(np.sum(self.stored)) if np.iscomplexobj(self.stored) else float(np.sum(self.stored))
         s1 = complex(np.sum(got)) if np.iscomplexobj(got) else float(np.sum(got))
-        if abs(s1 - s0) > 1e-12 * max(abs(s0), float(np.sum(np.abs(self.stored))), 1e-300) * max(1, len(got)):
+        if abs(s1 - s0) > self.rtol * max(abs(s0), float(np.sum(np.abs(self.stored))), 1e-300) * max(1, len(got)):
             return Violation("power", idx, "%s sums to %r, the stored PSD to %r" % (what, s1, s0))
         # restore
         if target == self.store_sides and not exact_equal(got, self.stored):
@@ -297,6 +310,8 @@ class Run(object):
                 entry["sides"] = p.sides
             except Exception as e:  # pragma: no cover
                 entry["psd"] = "raised:" + type(e).__name__
+        if viol is None:
+            viol = self._check_held(idx)
         post = self.abstate()
         self.states.add(post)
         self.transitions.add((pre, k, op.get("value", op.get("sides")) if k in ("sides", "conv") else None,
@@ -307,6 +322,20 @@ class Run(object):
         if viol is not None:
             self.violation = viol
         return viol
+
+    def _hold(self, idx, what, arr):
+        if isinstance(arr, np.ndarray) and len(self.held) < 6:
+            self.held.append((idx, what, arr, arr.copy()))
+
+    def _check_held(self, idx):
+        """`held_result`: a vector the object handed out (get_converted_psd) was the conversion of the PSD
+        stored at that time; a later operation on the object must not rewrite it behind the caller's back,
+        or "the PSD converted to s" that the caller holds silently becomes something else."""
+        for at, what, arr, snap in self.held:
+            if not exact_equal(arr, snap):
+                return Violation("held_result", idx, "the vector returned by %s at step %d was changed in place by a "
+                                 "later operation on the object" % (what, at))
+        return None
 
     def _snapshot(self):
         p = self.p
@@ -489,6 +518,7 @@ class Run(object):
         self.paths.append("conv:" + s)
         v = self._check_vector(idx, "get_converted_psd(%r) from sides=%s" % (s, self.sides), got, s,
                                p.frequencies(s), p.df)
+        self._hold(idx, "get_converted_psd(%r)" % s, got)
         return v, "ok"
 
     # -- stateless helpers on a detached vector ---------------------------
@@ -496,6 +526,7 @@ class Run(object):
         sp = sut.load()
         tools = sp.tools
         raw = dec_array(op["value"])
+        hrtol = 1e-6 if raw.dtype == np.float32 else 1e-12
         v = raw.astype(float)
         M = len(v)
         T = v.copy()             # canonical two-sided model of the detached vector
@@ -541,12 +572,12 @@ class Run(object):
                 return Violation("helper_len", idx, "tools.%s returned %d values for a %s vector of two-sided "
                                  "length %d, expected %d" % (name, len(out), rep, M, len(exp)))
             exact = name in ("twosided_2_centerdc", "centerdc_2_twosided", "cshift_half") or name.startswith("cshift")
-            if not (exact_equal(out, exp) if exact else close(out, exp)):
-                bad = [i for i in range(len(out)) if not close(out[i:i + 1], exp[i:i + 1])][:4]
+            if not (exact_equal(out, exp) if exact else close(out, exp, rtol=hrtol)):
+                bad = [i for i in range(len(out)) if not close(out[i:i + 1], exp[i:i + 1], rtol=hrtol)][:4]
                 return Violation("helper_fold_asym" if asym else "helper", idx,
                                  "tools.%s on %s length-%d vector: entries %s are %s, expected %s"
                                  % (name, rep, M, bad, [float(out[i]) for i in bad], [float(exp[i]) for i in bad]))
-            if not name.startswith("cshift:") and abs(float(np.sum(out)) - float(np.sum(v))) > 1e-12 * float(np.sum(np.abs(v))) * M:
+            if not name.startswith("cshift:") and abs(float(np.sum(out.astype(float))) - float(np.sum(v))) > hrtol * float(np.sum(np.abs(v))) * M:
                 return Violation("helper", idx, "tools.%s does not preserve the total power" % name)
             if name == "twosided_2_onesided":
                 T = refmodel.canonical_from(exp, "onesided", M)
@@ -770,14 +801,14 @@ def gen_op(rng, run):
         n = run.M if cplx else refmodel.n_onesided(run.M)
         if cplx and rng.random() < 0.4:
             n = rng.choice([1, 2, 3, 4, 5, 7, 8, 9, 16, 17, rng.randrange(1, 65)])
-        kind = rng.choice(["basis", "distinct", "random", "ramp", "ints", "withinf"])
+        kind = rng.choice(["basis", "distinct", "random", "ramp", "ints", "withinf", "signed", "narrow"])
         d = enc_array(gen_vector(rng, n, kind, rng.randrange(0, n)))
         if rng.random() < 0.3:
             d["c"] = "list"
         return {"op": "setpsd", "value": d}
     if r < 0.95:
         M = rng.choice([1, 2, 3, 4, 5, 6, 7, 8, 9, 15, 16, 17, 32, 33, rng.randrange(1, 65)])
-        kind = rng.choice(["basis", "distinct", "random", "symmetric", "ints", "withinf"])
+        kind = rng.choice(["basis", "distinct", "random", "symmetric", "ints", "withinf", "signed", "narrow"])
         if kind == "symmetric":
             h = gen_vector(rng, refmodel.n_onesided(M), "random")
             v = refmodel.canonical_from(h, "onesided", M)
@@ -798,7 +829,7 @@ def run_random(seed):
     if rng.random() < 0.6:
         M = rng.choice([1, 2, 3, 4, 5, 6, 7, 8, 9, 15, 16, 17, 31, 32, 33, 63, 64, rng.randrange(1, 65)])
         cplx = rng.random() < 0.5
-        kind = rng.choice(["basis", "distinct", "random", "ramp", "ints", "withinf"] + (["cvalued"] if cplx else []))
+        kind = rng.choice(["basis", "distinct", "random", "ramp", "ints", "withinf", "signed", "narrow"] + (["cvalued"] if cplx else []))
         if rng.random() < 0.25:
             M = rng.randrange(65, 513)           # sizes beyond the systematic stratum (numeric coincidences)
         cfg = base_cfg(rng, cplx, M, kind, rng.randrange(0, 64))
